@@ -21,7 +21,7 @@ def role(th):
     return 'exec'
   if 'PhaseExecutorThread' in n:
     return 'phase'
-  if n == 'vf-main':
+  if n == 'vf-main' or (n == 'MainThread' and _LAB.get('real_main')):
     return 'main'
   if 'PlugTearDownThread' in n:
     return 'plugtd'
@@ -65,9 +65,26 @@ def stacks():
   return out
 
 
+def _cleanup_abort(t):
+  """Ends a run that nothing else will end; never blocks the caller (the
+  Test's lock may be held by a deliberately deadlocked thread)."""
+  def go():
+    try:
+      t.abort_from_sig_int()
+      t.abort_from_sig_int()
+    except Exception:  # pylint: disable=broad-except
+      pass
+  th = threading.Thread(target=go, name='vf-cleanup', daemon=True)
+  th.start()
+  th.join(3.0)
+
+
+CURRENT = {}
+
+
 def run(prog, cfg, target=None, action='abort', second=None, inline=False,
         yield_seed=None, yield_prob=0.3, abort_after_event=None,
-        wait_s=6.0, join_s=25.0):
+        wait_s=6.0, join_s=25.0, real_sigint=False, late_cleanup_s=8.0):
   """Runs one scenario.
 
   target: ((role, qualname, line), hit) pause point or None.
@@ -82,9 +99,14 @@ def run(prog, cfg, target=None, action='abort', second=None, inline=False,
   L = lab()
   eng, H, td = L['engine'], L['H'], L['td']
   td.Test.HANDLED_SIGINT_ONCE = False
+  # Every case starts from a clean process-level registry (a test left behind
+  # by an earlier, deliberately hung schedule must not receive this abort).
+  for k in list(td.Test.TEST_INSTANCES.keys()):
+    td.Test.TEST_INSTANCES.pop(k, None)
   b = pm.Built(prog, cfg)
   t = b.test
   log = b.log
+  CURRENT['log'] = log
   recs = []
   t.add_output_callbacks(lambda r: (log.add('callback', r.outcome.name
                                             if r.outcome else None),
@@ -135,21 +157,69 @@ def run(prog, cfg, target=None, action='abort', second=None, inline=False,
   else:
     eng.inline_action = None
   eng.enabled = True
-  mt = threading.Thread(target=main, name='vf-main', daemon=True)
-  try:
-    mt.start()
+  L['real_main'] = bool(real_sigint)
+  old_sig = None
+  if real_sigint:
+    def wrapped(signum, frame):
+      f = frame
+      while f is not None:
+        if (f.f_code.co_name == 'execute' and
+            f.f_code.co_filename.endswith('test_descriptor.py')):
+          info.setdefault('sigint_lines', []).append(f.f_lineno)
+          break
+        f = f.f_back
+      log.add('abort_call' if not any(e[2] == 'abort_call' for e in log.events)
+              else 'abort2_call')
+      tag = 'abort_ret' if not any(e[2] == 'abort_ret' for e in log.events) \
+          else 'abort2_ret'
+      try:
+        td.Test.handle_sig_int(signum, frame)
+      finally:
+        log.add(tag)
+    old_sig = signal.signal(signal.SIGINT, wrapped)
+
+    def sigint_action(tag='abort'):
+      n = sum(1 for e in log.events if e[2].endswith('_ret') and
+              e[2].startswith('abort'))
+      # deliver to the main thread, as the kernel does for a terminal Ctrl-C
+      signal.pthread_kill(threading.main_thread().ident, signal.SIGINT)
+      t_end = time.monotonic() + 3.0
+      while time.monotonic() < t_end:
+        if sum(1 for e in log.events if e[2].endswith('_ret') and
+               e[2].startswith('abort')) > n:
+          return True
+        time.sleep(0.0005)
+      return False
+
+    do_abort = lambda tag='abort': sigint_action(tag)  # noqa: E731
+  hang = None
+  ctrl_done = threading.Event()
+
+  def controller(mt_alive):
+    try:
+      _controller(mt_alive)
+    finally:
+      ctrl_done.set()
+
+  def _controller(mt_alive):
     if target is not None and not inline and action:
       act = eng.run_action_at_pause(do_abort, wait_s=wait_s, hold_s=0.25)
       info['reached'], info['blocked'] = act['reached'], act['blocked']
       if act.get('_done'):
         act['_done'].wait(join_s)
+      if not act['reached'] and mt_alive():
+        # the point was not reached; make sure a body that only ends by an
+        # abort does not keep the run alive (not judged: no abort_call event)
+        log.add('cleanup_abort')
+        _cleanup_abort(t)
       if second is not None and act['reached']:
         if second == 'after_teardown_start':
           tds = teardown_phase_ids(prog)
           t_end = time.monotonic() + wait_s
           seen = False
-          while time.monotonic() < t_end and not seen and mt.is_alive():
-            seen = any(e[2] == 'start' and e[3] in tds for e in list(log.events))
+          while time.monotonic() < t_end and not seen and mt_alive():
+            seen = any(e[2] == 'start' and e[3] in tds
+                       for e in list(log.events))
             time.sleep(0.001)
           if seen:
             info['second_reached'] = True
@@ -163,31 +233,63 @@ def run(prog, cfg, target=None, action='abort', second=None, inline=False,
           if act2.get('_done'):
             act2['_done'].wait(join_s)
     elif target is not None and inline:
-      info['reached'] = eng.paused.wait(wait_s) or eng.fired
+      info['reached'] = bool(eng.paused.wait(wait_s) or eng.fired)
     elif abort_after_event is not None:
       t_end = time.monotonic() + wait_s
       kind, pid = abort_after_event
-      while time.monotonic() < t_end and mt.is_alive():
+      while time.monotonic() < t_end and mt_alive():
         if any(e[2] == kind and e[3] == pid for e in list(log.events)):
           info['reached'] = True
           do_abort()
           break
         time.sleep(0.0005)
-    mt.join(join_s)
-    hang = None
-    if mt.is_alive():
+
+  try:
+    if real_sigint:
+      alive = [True]
+      ct = threading.Thread(target=controller, args=(lambda: alive[0],),
+                            name='vf-ctrl', daemon=True)
+      ct.start()
+      main()
+      alive[0] = False
+      ctrl_done.wait(join_s)
+      mt = None
+    else:
+      mt = threading.Thread(target=main, name='vf-main', daemon=True)
+      mt.start()
+      controller(mt.is_alive)
+      mt.join(late_cleanup_s)
+      if mt.is_alive():
+        # e.g. the abort was not one of a running test and a body only ends
+        # when it is killed: end the run (events after this are not judged)
+        log.add('cleanup_abort')
+        _cleanup_abort(t)
+        mt.join(join_s)
+    if mt is not None and mt.is_alive():
       s1 = stacks()
       time.sleep(1.0)
       s2 = stacks()
-      hang = {'same_stacks': s1 == s2, 'stacks': s2}
+      blocked_fns = ('_wait_for_tstate_lock', 'wait', 'join', 'acquire',
+                     '__enter__', 'abort_from_sig_int', 'get', '_on_line',
+                     'vjoin')
+      all_blocked = all(st and st[-1][0] in blocked_fns
+                        for name, st in s2.items()
+                        if name not in ('vf-watchdog', 'vf-ctrl', 'vf-action'))
+      hang = {'same_stacks': s1 == s2 and all_blocked, 'stacks': s2}
       eng.release()
   finally:
+    if old_sig is not None:
+      signal.signal(signal.SIGINT, old_sig)
+    L['real_main'] = False
     eng.release()
     eng.enabled = False
     eng.inline_action = None
     threading.excepthook = old_hook
     pm.prune_handlers()
+  post = {'executor_set': t._executor is not None,  # pylint: disable=protected-access
+          'registered': any(v is t for v in list(td.Test.TEST_INSTANCES.values()))}
   obs = {'events': list(log.events), 'result': result, 'crash': crashes,
+         'post': post,
          'recs': recs, 'info': info, 'hang': hang, 'seen': dict(eng.seen),
          'yields': eng.yields, 'built': b}
   if recs:
